@@ -170,6 +170,9 @@ func evalArp(line string) *core.Case {
 				if len(p) >= 42 {
 					nontrivial = true
 				}
+				if !h.VerifMuFree() { // the previous call returned with arpMutex held
+					break
+				}
 				buf := append([]byte{}, p...)
 				fr, perr := s.Parse(buf)
 				switch {
@@ -232,6 +235,10 @@ func evalIcmp6(line string) *core.Case {
 			wakes := 0
 			for _, op := range ops {
 				if op == "C" {
+					if !h.TryLock() {
+						break
+					}
+					h.Unlock()
 					h.Close()
 					disp = append(disp, "closed")
 					continue
@@ -240,6 +247,10 @@ func evalIcmp6(line string) *core.Case {
 				if len(p) >= 62 {
 					nontrivial = true
 				}
+				if !h.TryLock() { // the previous call returned with the handler mutex held: every further call would block
+					break
+				}
+				h.Unlock()
 				buf := append([]byte{}, p...)
 				ch := h.VerifCloseChan()
 				before := closedChan(ch)
@@ -263,9 +274,14 @@ func evalIcmp6(line string) *core.Case {
 			if free {
 				h.Unlock()
 			}
-			rt, def := c14.RoutersCanon(h)
+			rt, def := "?", "?"
+			closed := "?"
+			if free {
+				rt, def = c14.RoutersCanon(h)
+				closed = b01(h.VerifClosed())
+			}
 			res = fmt.Sprintf("%s mu=%s wakes=%d closed=%s rep=%d def=%s routers=%s sent=%s", strings.Join(disp, ","), b01(!free),
-				wakes, b01(h.VerifClosed()), icmp_spoofer.VerifRepeat(), def, rt, sentStr(rec.Take()))
+				wakes, closed, icmp_spoofer.VerifRepeat(), def, rt, sentStr(rec.Take()))
 			if free {
 				h.Close()
 			}
@@ -319,8 +335,18 @@ func Eval(c *core.Ctx, line string) *core.Case {
 	return nil
 }
 
+// hangs: a handler that spins or dead-locks costs a watchdog period per line; after a few witnesses the class is given up
+var hangs int
+
 func add(c *core.Ctx, class, line string) {
+	if hangs >= 3 {
+		c.Drop(class, "skipped: hang budget spent")
+		return
+	}
 	cs := Eval(c, line)
+	if cs != nil && cs.Impl == "hang" {
+		hangs++
+	}
 	if cs == nil {
 		c.Drop(class, "not evaluated")
 		return
